@@ -13,7 +13,7 @@ PROPS["C12"] = dict(
     trivial_classes=[0],
     signatures={"1": "icmp program differs from its spec", "2": "udp program differs from its spec", "3": "synack program differs from its spec",
                 "4": "drop-all program accepts a frame", "5": "tcp 4-tuple program differs from its spec",
-                "6.0": "matcher yields a hop for a frame the installed filter rejects: IPv6 hop-by-hop header before ICMPv6", "6.1": "matcher yields a hop for a frame the installed capture filter rejects", "6.3": "the 4-tuple capture filter a TCP run installed on a handle is not for the flow of the probes it writes through that handle (real run, parameter lab kind 12)", "6.2": "the SYN-ACK that establishes the SACK handshake is rejected by the SYN-ACK capture filter"},
+                "6.0": "matcher yields a hop for a frame the installed filter rejects: IPv6 hop-by-hop header before ICMPv6", "6.1": "matcher yields a hop for a frame the installed capture filter rejects", "6.4": "the installation of a capture filter (which drains the socket first) discarded a reply of the target that had already been captured, e.g. the SYN-ACK of the SACK handshake (real run, parameter lab kind 12)", "6.3": "the 4-tuple capture filter a TCP run installed on a handle is not for the flow of the probes it writes through that handle (real run, parameter lab kind 12)", "6.2": "the SYN-ACK that establishes the SACK handshake is rejected by the SYN-ACK capture filter"},
     trusted_base=["x/net/bpf assembler and VM (the Coq interpreter is compared with bpf.VM on every case)",
                   "kernel cBPF semantics = x/net/bpf VM semantics (not verified)"],
     assumptions=["programs are the ones getClassicBPFFilter returns on this tree (regenerated each run)"],
@@ -52,6 +52,12 @@ DOC_RULE = ("Real traceroute.RunTraceroute under testing/synctest with the per-q
 DOC_TRUSTED = ["scripted per-query function / resolver / fetcher and synctest clock in /verif/harness; encoding/json, net.IP text codec, uuid, go-cache are modelled only (exercised, not verified)",
                "float fields compared with relative tolerance 1e-9 (binary64) / 1e-6 (binary32 loss); identities over exact rationals are what the theorems state"]
 DOC_TRIVIAL = []
+for _pid, _sig in (("C03", {"3.2": "final document: a run's hop list is not the one entry per TTL of the run it came from (entries lost, added or renumbered after the engines)"}),
+                   ("C07", {"7.3": "request level: the result does not contain exactly the outcomes of the request's runs and probes (something other than the per-run outcomes - a cancellation instant, the completion order - changed it)"})):
+    PROPS[_pid]["labs"] = PROPS[_pid]["labs"] + ["doc"]
+    PROPS[_pid]["rule"] = PROPS[_pid]["rule"] + " " + DOC_RULE
+    PROPS[_pid]["signatures"] = dict(PROPS[_pid]["signatures"], **_sig)
+    PROPS[_pid]["trusted_base"] = PROPS[_pid]["trusted_base"] + DOC_TRUSTED
 PROPS["C15"] = dict(num=15, labs=["doc"], rule=DOC_RULE, nontrivial="at least one query (run or probe) in the request", trivial_classes=[0, 32, 64, 96],
     signatures={"15": "result/err violates all-or-error, exact counts, no run lost or duplicated, or an individual failure is not exposed by errors.Is", "99": "document could not be decoded"},
     trusted_base=DOC_TRUSTED, assumptions=["the accumulator's mutex makes each append atomic (C14)"])
@@ -90,7 +96,7 @@ DRV_RULE = ("Driver lab: the real ICMP (v4, v6), UDP (v4, v6; strict, relaxed), 
 DRV_TRUSTED = ["gopacket v1.1.19 decoders/serialisers, x/net/icmp.ParseMessage, net/netip equality are MODELLED (Wire/Decode.v, Wire/Build.v) and validated byte-for-byte / outcome-for-outcome by this correspondence, not verified",
                "simulated Source/Sink and synctest clock in /verif/harness; verif-tagged constructors in /repo (export_verif.go)"]
 for _pid, _num, _labs, _sig in [
-    ("C01", 1, ["drv"], {"1": "a hop was reported for a packet that is not a genuine reply to this run's probe with that TTL from that address", "1.9": "a hop from bytes the model cannot even parse"}),
+    ("C01", 1, ["drv", "eng"], {"1": "a hop was reported for a packet that is not a genuine reply to this run's probe with that TTL from that address", "1.9": "a hop from bytes the model cannot even parse"}),
     ("C02", 2, ["drv", "eng"], {"6.1": "a catalogue reply form is recognised by the matcher but rejected by the capture filter the entry point installs", "2": "a catalogue reply form was not recognised", "2.1": "a catalogue reply form was credited to the wrong TTL or responder", "2.2": "ACK without SACK blocks did not end the SACK run as not-supported", "2.3": "parallel engine: a reply readable one poll interval before the deadline was not accepted"}),
     ("C04", 4, ["drv", "doc", "eng"], {"4": "destination flag differs from the protocol's proof of arrival from the target", "7": "engine: reported hop (address, RTT, destination flag) is not the reply kept by the merge rule"}),
     ("C05", 5, ["drv", "eng", "doc"], {"5.3": "end-to-end statistics treat a 0 (= no answer) sample as a round trip, or are otherwise not those of the answered probes", "1": "the RTT was measured for a packet that does not answer the probe it was credited to (another probe's send time)", "5": "RTT is negative or not (processing instant - send instant of a probe with that TTL); engine kept a later duplicate"}),
@@ -109,6 +115,9 @@ PAR_RULE = ("Parameter / policy lab: (8) the real RunTraceroute over the simulat
             "(10) target literal forms (IPv4, IPv6, bracketed, with and without port) x default ports around 0/1/65535/65536; (11) performTCPFallback with random error trees (wrap depth <= 4, NotSupportedError at any depth, errors.Join); "
             "(12) the real runTracerouteOnce for syn/sack/prefer_sack against a loopback listener the harness owns (accept count = connections opened) with handshake segments synthesised on the simulated wire: SACK-permitted with/without timestamps, no SACK-permitted, ACKs without SACK blocks, port closed, handshake never captured, and injected filter/send/read failures.")
 PROPS["C06"]["rule"] = PROPS["C06"]["rule"] + " " + PAR_RULE
+PROPS["C17"]["labs"] = PROPS["C17"]["labs"] + ["par"]
+PROPS["C17"]["rule"] = PROPS["C17"]["rule"] + " " + PAR_RULE
+PROPS["C17"]["signatures"] = dict(PROPS["C17"]["signatures"], **{"17.3": "HTTP request with skip-private-hops: a private hop of the path is in the response document"})
 PAR_TRUSTED = ["real sockets are used only for LocalAddrForHost / reserveLocalPort / the loopback dial; every packet is written to the simulated sink", "net.SplitHostPort, netip.ParseAddr, strconv.Atoi, errors.Is/As/Join are modelled only"]
 PROPS["C19"] = dict(num=19, labs=["par", "drv", "eng"], rule=PAR_RULE + " " + DRV_RULE, nontrivial="any case", trivial_classes=[],
     signatures={"19.9": "HTTP query: a well-formed value (port, max-ttl, traceroute-queries, e2e-queries, timeout in ms, a boolean flag) was replaced by another value instead of being handed on (honoured or rejected)", "19.1": "TTL byte of an emitted probe differs from the TTL asked of the driver", "19.2": "a request with TTL bounds outside 1..255 (or min > max) was executed", "19.3": "probes on the wire do not cover exactly the requested TTL range",
@@ -140,7 +149,7 @@ LIFE_RULE = ("Lifecycle lab: the real runTracerouteOnce for udp, icmp, tcp-syn (
              "the k-th WriteTo / SetReadDeadline / Read (k = 1, 2, middle, last, last+1; every k in the thorough tier) x {fatal error, deadline error, zero-length read}; after the call returns the virtual clock runs on for 2 s so that any goroutine "
              "the run left behind touches its closed handles. Observed: error / result nil-ness, errors.Is(err, injected cause), per-handle close counts, use after close. SACK: the real-run part of the policy lab (kind 12: filter/send/read faults, handles closed once).")
 PROPS["C10"] = dict(num=10, labs=["life", "par"], rule=LIFE_RULE + " " + PAR_RULE, nontrivial="any fault-injection case", trivial_classes=[],
-    signatures={"10.1": "a handle was not closed exactly once, or was used after its close (also by a goroutine outliving the call)", "10.2": "the returned error does not wrap the injected cause", "10.3": "an error was returned together with a result, or neither", "10.6": "a TCP connection dialled by the SACK run was still open (seen from the peer) after the run returned", "10.4": "a SendProbe failure (also one that was in flight when the destination answer was processed) did not fail the run with its cause", "10.9": "the entry point panicked"},
+    signatures={"10.1": "a handle was not closed exactly once, or was used after its close (also by a goroutine outliving the call)", "10.2": "the returned error does not wrap the injected cause", "10.3": "an error was returned together with a result, or neither", "10.7": "a socket the run opened itself (the UDP socket that yields the local address and holds the source port, the TCP port-reservation listener) was still open after the run returned (descriptor count, collector off)", "10.6": "a TCP connection dialled by the SACK run was still open (seen from the peer) after the run returned", "10.4": "a SendProbe failure (also one that was in flight when the destination answer was processed) did not fail the run with its cause", "10.9": "the entry point panicked"},
     trusted_base=PAR_TRUSTED + ["fault injection happens at the Source/Sink seam; the real AF_PACKET / raw-socket code below it is not exercised"], assumptions=[])
 
 import vlib as _vlib
